@@ -77,6 +77,16 @@ def vecmat_cases():
     return out
 
 
+def spelled_constant_cases():
+    """constant indices in every integer literal spelling (decimal, hex, octal, signed): the bound check must not depend on it"""
+    out = []
+    for decl, n in (("int[4]", 4), ("float3", 3), ("float3x3", 3), ("int[2][4]", 2)):
+        for k in (0, n - 1, n, n + 4, 8, 15):
+            for sp in ("%d" % k, "0x%X" % k, "0x%x" % k, "0%o" % k if k else "00", "+%d" % k if k else "0"):
+                out.append(("constant-spelling", decl, "t[%s]" % sp, 0 <= k < n, True))
+    return out
+
+
 def indextype_cases():
     """index expressions of every scalar/vector type, as literal and as variable"""
     out = []
@@ -240,6 +250,7 @@ def run_shard(tier, seed, shard, n, R):
     run_cases(R, array_cases(), shard, n, tier, rng, 1.0 if full else 0.2)
     run_cases(R, vecmat_cases(), shard, n, tier, rng, 1.0)
     run_cases(R, indextype_cases(), shard, n, tier, rng, 1.0)
+    run_cases(R, spelled_constant_cases(), shard, n, tier, rng, 1.0)
     run_cases(R, mask_cases(), shard, n, tier, rng, 1.0 if full else 0.12)
     run_cases(R, nested_mask_cases(), shard, n, tier, rng, 1.0)
     R.flags["vector_matrix_index_grid"] = True
